@@ -251,12 +251,16 @@ def judge(b, a, act):
         target = c['type'].split(':', 1)[1] if c['type'].split(':')[0] in ('Ref', 'RefList') else None
         if not (target in tmap and diff and all(isinstance(v[i], str) for i in diff)):
           alt_text_only = False
-  if changed and info['fresh']:
-    if any(c == 'group' and t in b['summary'] for (t, c) in cren):
-      kind = 'rename_of_summary_group_column'
-    elif any(c == 'manualSort' for (t, c) in cren):
-      kind = 'rename_of_manualsort_column'
-    elif tmap and data_changed and alt_text_only:
+  accepted_protected = [(t, c) for (t, c) in cren if is_protected(b, t, c)]
+  if accepted_protected:
+    # a protected column must keep its name (fixed by b90267a): accepting the rename is a failure whether or not a
+    # cell value happens to change in this document
+    t, c = accepted_protected[0]
+    kind = 'rename_of_summary_group_column' if c == 'group' else 'rename_of_manualsort_column'
+    problems.append((kind, 'rename of protected column %s.%s to %r was accepted%s' % (
+      t, c, cren[(t, c)], ('; values changed: ' + '; '.join(changed[:3])) if changed else '')))
+  elif changed and info['fresh']:
+    if tmap and data_changed and alt_text_only:
       # RenameTable retypes Ref:Old columns to Int and back: alternative text that parses as a number becomes a row id
       kind = 'rename_table_reinterprets_alt_text_in_reference_columns'
     elif culprit_tags and culprit_tags <= set(GAP_KINDS) and len(culprit_tags) == 1:
@@ -330,6 +334,23 @@ def requested_name(act):
   return vals.get('colId', vals.get('tableId', vals.get('label')))
 
 
+def is_protected(b, table_id, col_id):
+  """Columns the engine recognises by NAME (and protects since fix b90267a)."""
+  return col_id == 'manualSort' or (col_id == 'group' and table_id in b['summary'])
+
+
+def protected_target(b, act):
+  """(table id, col id) when the action addresses a protected column, else None."""
+  if act[0] == 'RenameColumn':
+    t, c = act[1], act[2]
+  elif act[0] == 'UpdateRecord' and act[1] == '_grist_Tables_column' and act[2] in b['cols']:
+    col = b['cols'][act[2]]
+    t, c = b['tabs'].get(col['tref']), col['colId']
+  else:
+    return None
+  return (t, c) if is_protected(b, t, c) else None
+
+
 VALUE_KINDS = ('value_changed', 'formula_not_renamed', 'rows_changed')
 
 
@@ -344,9 +365,24 @@ def check_rename(e, act, bundles=None, collect=False):
     reported = collections.defaultdict(list)
     for (finfo, pos, tb, col) in e.gencode.grist_names():
       reported[finfo].append((pos, tb, col))
+  prot = protected_target(b, act)
+  snap = G.snapshot(e) if prot else None
   try:
     G.apply(e, [act])
   except Exception as ex:
+    if prot:
+      # a rename of a protected column (manualSort; group of a summary table) is rejected and leaves no trace:
+      # every table, metadata included, is as before, and a Calculate afterwards has nothing to do
+      problems = []
+      after = G.snapshot(e)
+      if after != snap:
+        problems.append(('rejected_protected_rename_left_trace', 'rename of %s.%s rejected (%s) but the document '
+                         'changed: %s' % (prot[0], prot[1], type(ex).__name__, '; '.join(G.diff_snapshots(snap, after)))))
+      out = G.clean(e)
+      if out is not None and G.reprs(out.stored):
+        problems.append(('rejected_protected_rename_left_trace', 'rename of %s.%s rejected but the next Calculate emits %r'
+                         % (prot[0], prot[1], G.reprs(out.stored)[:3])))
+      return 'rejected_protected:%s' % type(ex).__name__, {}, problems
     G.clean(e)
     return 'rejected:%s' % type(ex).__name__, {}, []
   a = observe(e)
@@ -585,6 +621,20 @@ def run_streams(ctx):
           ('clash', 'directed', ctx.n(1, 6)), ('gaps', 'directed', ctx.n(1, 6)),
           ('clash', 'random', ctx.n(1, 30)), ('gaps', 'random', ctx.n(1, 30))]
   out = []
+  # the witnesses of the FIXED findings stay in the corpus and run first: the rename must now be rejected without trace
+  for k in core.load_known():
+    if k.get('property') == ID and k.get('kind') == 'fixed' and 'witness' in k:
+      w = k['witness']
+      e, _ = G.new_doc()
+      for bundle in w['bundles']:
+        try_apply(e, None, bundle)
+      status, info, problems = check_rename(e, w['rename'], w['bundles'])
+      if not status.startswith('rejected_protected'):
+        problems = problems or [(w.get('kind', 'fixed_witness'), 'the witness of fixed finding %s is no longer rejected '
+                                 '(status %s)' % (k['id'], status))]
+      out.append({'stream': 'fixed-witness', 'mode': 'witness', 'seed': k['id'], 'bundles': w['bundles'],
+                  'path': w['rename'][0], 'act': w['rename'], 'status': status, 'info': info, 'problems': problems,
+                  'trees': {}})
   for stream, mode, n in plan:
     for k in range(n):
       seed = ctx.rng.randrange(1 << 30)
@@ -755,7 +805,9 @@ TRUSTED = ['Model/Renames.v eval: the semantics of the formula forms (hand-writt
 ASSUMPTIONS = ['fresh new name: not a column of the table / table of the document and not mentioned by any formula',
                'supported reference forms only (wf_static): every attribute, keyword and order_by/group_by name has a '
                'statically known table; comprehension variables only over lookups and .all',
-               'neither the old nor the new column name is `group` (C16_refuted_summary_group)',
+               'group_ok: a column carrying the group formula is not renamed from or to `group` '
+               '(C16_group_rename_must_be_rejected shows why; the engine rejects renames of manualSort and of a summary '
+               "table's group column since b90267a, and the search checks that the rejection leaves no trace)",
                'builtins do not inspect table names (proved for the standard ones; str(record) shows the table id and is '
                'keyed through the rename by the oracle)']
 TECHNIQUE = ('Coq proof of equivariance of an executable formula semantics under injective renamings + text-level model '
@@ -766,9 +818,10 @@ LEVEL_TEXT = ('Kernel-checked: for every document, formula, row and fuel, consis
               'and references leaves every value unchanged (general injective renamings; corollaries for one fresh column '
               'or table name), round trips restore formulas, and the text produced by patching the reported name positions '
               'is the old text with exactly those name tokens replaced and equals the print of the renamed tree. The '
-              'statement without the `group` side condition is refuted in the model (C16_refuted_summary_group) and on the '
-              'engine.')
+              'model shows why a group-formula column named `group` must keep its name '
+              '(C16_group_rename_must_be_rejected); the engine rejects such renames (fix b90267a) and the search checks '
+              'that the rejection leaves no trace.')
 LEVEL_NOTE = ('Kernel strength: name discovery (astroid) is an oracle whose completeness is a monitored premise; the '
               'evaluation semantics is a hand-written model. Implementation-only findings (not in the model): tables '
-              'named like a function, renaming manualSort, gristHelper_ targets, alt text in reference columns on '
-              'RenameTable.')
+              'named like a function, gristHelper_ targets, alt text in reference columns on RenameTable (known); '
+              'renaming manualSort or a summary group column (fixed by b90267a, witnesses kept in the corpus).')
